@@ -256,6 +256,10 @@ impl<P: TravellingSalespersonProblem> Component<P> for MinMaxPheromoneUpdate {
 
         // Evaporation
         *pm *= 1.0 - self.evaporation;
+        // Evaporated trails are subject to the pheromone bounds as well
+        for x in &mut pm.inner {
+            *x = x.clamp(self.min_pheromones, self.max_pheromones);
+        }
 
         // Update pheromones for probabilistic routes
         let individual = populations
